@@ -59,7 +59,7 @@ theorem C04_projection_safe (new rest : List BLit) (head : Head) (body : List BL
 /-- invented predicates never collide with the vocabulary (so a generated rule cannot capture a source predicate) -/
 theorem C04_fresh_predicates (prg : Prog) (inputs : List Pred) (ops : List NameOp) :
     ∃ ps s', (UniqueNames.init prg inputs).run ops = some (ps, s') ∧ ps.Nodup ∧
-      ∀ p ∈ ps, p ∉ inputs ∧ p ∉ prg.allPreds :=
+      ∀ p ∈ ps, p ∉ inputs ∧ p ∉ prg.allPreds ∧ p ∉ showSigs prg :=
   C07_fresh_pred prg inputs ops
 
 end NgoVerif
